@@ -17,7 +17,7 @@ def main():
     cross = '--cross' in sys.argv
     only = [a for a in sys.argv[1:] if not a.startswith('--')]
     out = {}
-    res_path = V / 'seeded' / 'RESULTS.json'
+    res_path = Path(os.environ.get('MUTANT_RESULTS', str(V / 'seeded' / 'RESULTS.json')))
     if res_path.exists():
         out = json.loads(res_path.read_text())
     for d in sorted((V / 'seeded').glob('C*-[ab]')):
